@@ -426,6 +426,28 @@ func TestVerifC14(t *testing.T) {
 			}
 		}
 	}
+	// sparse-minute shapes: the occupancy buckets are counted from the oldest document's timestamp, which
+	// is not aligned to the wall-clock minute (offset d); two documents of one wall-clock minute then
+	// lie in different buckets, with empty minutes around them
+	now0 := time.Now().UnixMilli()
+	minute := now0 / 60_000 * 60_000
+	for _, d := range []int64{15_000, 30_000, 45_000} {
+		ts := []int64{minute - 12*60_000 + d, minute - 8*60_000 + d - 10_000, minute - 8*60_000 + d + 10_000, minute - 4*60_000 + d + 10_000, minute - 4*60_000 + d + 20_000, minute - 2*60_000 + d - 10_000}
+		ages := make([]int64, len(ts))
+		for i, t := range ts {
+			ages[i] = now0 - t
+		}
+		for _, cut := range []int{len(ts), 1, 3} {
+			l := make([]int, len(ts))
+			for i := cut; i < len(ts); i++ {
+				l[i] = 1
+			}
+			layouts = append(layouts, struct {
+				ages   []int64
+				layout []int
+			}{ages, l})
+		}
+	}
 	vlib.Parallel(len(layouts), 8, func(i int) {
 		if r.Expired() {
 			return
@@ -436,7 +458,7 @@ func TestVerifC14(t *testing.T) {
 	r.Sample(c14Case{Kind: "real", Ages: layouts[len(layouts)/2].ages, Layout: layouts[len(layouts)/2].layout, Form: "reloaded-frac-cache", Query: "*"})
 	ev := r.Get("evaluations")
 	r.Finish(t, "model_checking",
-		fmt.Sprintf("bitmask: all sizes<=%d, all l<=r, all masks for size<=%d and all masks with <=2 bits above; distribution: from in 4 offsets x 0..%d buckets x on/off-bucket end, added MIDs = subsets of size<=3 of a half-bucket grid over [from-2b,to+2b], all ordered query pairs, direct and after JSON round trip (soundness: a MID in range implies intersecting); Info borders; real fractions (scaled block constants: 4 IDs per block, so the 7- and 8-document fractions span 3 ID blocks): subsets (quick: sizes 1-3 and 7-8, thorough: all) of 8 age slots (25h, 24h+30s, 11min, 10min-1ms, 5min, 61s, 0, -60s) in one or two fractions, three forms (last fraction active / all sealed / reloaded via .frac-cache), queries * and k:a over all ordered pairs of a border grid (document MIDs +-1, occupancy bucket borders, creation time, 0, max) vs reference search over all documents", maxSize, fullMask, nb),
+		fmt.Sprintf("bitmask: all sizes<=%d, all l<=r, all masks for size<=%d and all masks with <=2 bits above; distribution: from in 4 offsets x 0..%d buckets x on/off-bucket end, added MIDs = subsets of size<=3 of a half-bucket grid over [from-2b,to+2b], all ordered query pairs, direct and after JSON round trip (soundness: a MID in range implies intersecting); Info borders; real fractions (scaled block constants: 4 IDs per block, so the 7- and 8-document fractions span 3 ID blocks): subsets (quick: sizes 1-3 and 7-8, thorough: all) of 8 age slots (25h, 24h+30s, 11min, 10min-1ms, 5min, 61s, 0, -60s) in one or two fractions, plus sparse-minute shapes (6 documents placed +-10 s around the bucket border offset of the oldest document, offsets 15/30/45 s, empty minutes in between), three forms (last fraction active / all sealed / reloaded via .frac-cache), queries * and k:a over all ordered pairs of a border grid (document MIDs +-1, occupancy bucket borders, creation time, 0, max) vs reference search over all documents", maxSize, fullMask, nb),
 		map[string]any{
 			"states":                        r.DistinctCount("nontrivial"),
 			"transitions":                   ev,
